@@ -28,6 +28,10 @@ type walker struct {
 	next int
 	// arrays: backing arrays of slices seen, to express aliasing between slices
 	arrs []arr
+	// outer is set on the private walker that renders a map key: identities (pointers, channels)
+	// that the enclosing walk has already numbered keep that number, so that map keys which are
+	// object identities sort canonically when the objects were reached earlier in the walk
+	outer *walker
 }
 
 type pkey struct {
@@ -58,6 +62,11 @@ func Of(roots ...any) string {
 
 func (w *walker) id(p uintptr, t reflect.Type) (int, bool) {
 	k := pkey{p, t}
+	if w.outer != nil {
+		if id, ok := w.outer.ids[k]; ok {
+			return 1000000 + id, true
+		}
+	}
 	if id, ok := w.ids[k]; ok {
 		return id, true
 	}
@@ -203,7 +212,7 @@ func (w *walker) walk(v reflect.Value, depth int) {
 		for it.Next() {
 			// keys are printed with a private walker: key types in the code
 			// under test are plain comparable values (ints, strings, structs of them)
-			kw := &walker{ids: map[pkey]int{}}
+			kw := &walker{ids: map[pkey]int{}, outer: w}
 			kw.walk(it.Key(), 0)
 			keys = append(keys, kv{kw.sb.String(), it.Key()})
 		}
